@@ -2203,3 +2203,585 @@ Proof.
   exists [refute_l1], refute_l2. repeat split; try (vm_compute; reflexivity).
   vm_compute. intro H. discriminate H.
 Qed.
+
+(* ====================================================================== eval(): eval_reg on escaped pieces *)
+Local Arguments eval_match : simpl never.
+
+Fixpoint einert (prev : option N) (a rest : str) : Prop :=
+  match a with
+  | [] => True
+  | c :: a' => eval_match prev (a ++ rest) = None /\ einert (Some c) a' rest
+  end.
+
+Lemma einert_app : forall a b rest prev,
+  einert prev a (b ++ rest) -> einert (lastc a prev) b rest -> einert prev (a ++ b) rest.
+Proof.
+  induction a as [|c a IH]; simpl; intros b rest prev Ha Hb; auto.
+  destruct Ha as [H1 H2]. split.
+  - rewrite <- app_assoc. exact H1.
+  - apply IH; auto.
+Qed.
+
+Lemma eval_match_other : forall prev c s, (c =? 101) = false -> eval_match prev (c :: s) = None.
+Proof.
+  intros. unfold eval_match. unfold s_eval_lp. cbn [is_prefix]. rewrite (N.eqb_sym 101 c), H.
+  rewrite andb_false_r. reflexivity.
+Qed.
+
+Lemma eval_match_after_word : forall prev s, is_word_opt prev = true -> eval_match prev s = None.
+Proof. intros. unfold eval_match. rewrite H. reflexivity. Qed.
+
+Lemma einert_other : forall a rest prev, forallb (fun c => negb (c =? 101)) a = true ->
+  einert prev a rest.
+Proof.
+  induction a as [|c a IH]; simpl; intros; auto.
+  apply andb_true_iff in H. destruct H as [Hc Ha]. split; auto.
+  apply negb_true_iff in Hc. apply eval_match_other; auto.
+Qed.
+
+Lemma einert_after_word : forall w rest prev, is_word_opt prev = true -> forallb is_word w = true ->
+  einert prev w rest.
+Proof.
+  induction w as [|c w IH]; simpl; intros; auto.
+  apply andb_true_iff in H0. destruct H0 as [Hc Hw]. split.
+  - apply eval_match_after_word; auto.
+  - apply IH; auto.
+Qed.
+
+Lemma is_prefix_eval_inv : forall x, is_prefix s_eval_lp x = true ->
+  exists t, x = 101 :: 118 :: 97 :: 108 :: 40 :: t.
+Proof.
+  intros x H. unfold s_eval_lp in H.
+  destruct x as [|c1 [|c2 [|c3 [|c4 [|c5 t]]]]]; cbn [is_prefix] in H;
+    try (rewrite ?andb_false_r in H; discriminate H).
+  repeat (apply andb_true_iff in H; destruct H as [?E H]).
+  apply N.eqb_eq in E, E0, E1, E2, E3. subst. eexists. reflexivity.
+Qed.
+
+(* a word other than "eval", followed by a non-word character, is never taken for  eval(  *)
+Lemma einert_word : forall w rest prev, forallb is_word w = true -> str_eqb w s_eval = false ->
+  hd_is is_word rest = false -> einert prev w rest.
+Proof.
+  intros w rest prev Hw Hne Hr. destruct w as [|c w]; [exact I|].
+  cbn [forallb] in Hw. apply andb_true_iff in Hw. destruct Hw as [Hc Hw]. split.
+  2:{ apply einert_after_word; auto. }
+  unfold eval_match. destruct (negb (is_word_opt prev)); auto. cbn [andb].
+  destruct (is_prefix s_eval_lp ((c :: w) ++ rest)) eqn:E; auto. exfalso.
+  apply is_prefix_eval_inv in E. destruct E as [t E].
+  assert (W40 : is_word 40 = false) by reflexivity.
+  destruct w as [|c2 [|c3 [|c4 [|c5 w']]]]; cbn [app] in E.
+  - inversion E; subst. simpl in Hr. discriminate.
+  - inversion E; subst. simpl in Hr. discriminate.
+  - inversion E; subst. simpl in Hr. discriminate.
+  - inversion E; subst. discriminate Hne.
+  - inversion E; subst. cbn [forallb] in Hw.
+    repeat (apply andb_true_iff in Hw; destruct Hw as [?X Hw]). rewrite W40 in X2. discriminate.
+Qed.
+
+Lemma good_not_eval : forall s, good_name s = true -> str_eqb s s_eval = false.
+Proof.
+  intros s H. destruct (good_name_facts _ H) as (_ & _ & _ & _ & _ & Hk).
+  apply (mem_false_neq s s_eval py_keywords Hk). vm_compute. tauto.
+Qed.
+
+Lemma einert_good : forall s rest prev, good_name s = true -> hd_is is_word rest = false ->
+  einert prev s rest.
+Proof.
+  intros s rest prev H Hr. destruct (good_name_facts _ H) as (_ & Hw & _).
+  apply einert_word; auto. apply good_not_eval; auto.
+Qed.
+
+Lemma einert_dots : forall attrs rest prev, forallb good_name attrs = true ->
+  hd_is is_word rest = false -> einert prev (dots attrs) rest.
+Proof.
+  induction attrs as [|a r IH]; intros rest prev H Hr; [exact I|].
+  cbn [forallb] in H. apply andb_true_iff in H. destruct H as [Ha Hr'].
+  cbn [dots flat_map]. fold (dots r). split.
+  - apply eval_match_other. reflexivity.
+  - apply einert_app.
+    + apply einert_good; auto. destruct r; [exact Hr | reflexivity].
+    + apply IH; auto.
+Qed.
+
+(* string literals: no '(' inside, and the closing quote is not a character of  eval(  *)
+Lemma einert_suffixes : forall a rest prev,
+  (forall y1 y2, a = y1 ++ y2 -> y2 <> [] -> is_prefix s_eval_lp (y2 ++ rest) = false) ->
+  einert prev a rest.
+Proof.
+  induction a as [|c a IH]; intros rest prev H; [exact I|]. split.
+  - unfold eval_match. rewrite (H [] (c :: a)); [|reflexivity|discriminate].
+    rewrite andb_false_r. reflexivity.
+  - apply IH. intros y1 y2 E Hne. apply (H (c :: y1) y2); auto. rewrite E. reflexivity.
+Qed.
+
+Lemma no_eval_in_quoted : forall y q rest, forallb (fun c => negb (c =? 40)) y = true ->
+  is_quote q = true -> is_prefix s_eval_lp ((y ++ [q]) ++ rest) = false.
+Proof.
+  intros y q rest Hy Hq.
+  destruct (is_prefix s_eval_lp ((y ++ [q]) ++ rest)) eqn:E; auto. exfalso.
+  apply is_prefix_eval_inv in E. destruct E as [t E].
+  apply quote_cases in Hq.
+  destruct y as [|c1 [|c2 [|c3 [|c4 [|c5 y']]]]]; cbn [app] in E; inversion E; subst;
+    try (destruct Hq; discriminate).
+Qed.
+
+Lemma suffix_of_snoc : forall {A} (s : list A) q y1 y2, s ++ [q] = y1 ++ y2 -> y2 <> [] ->
+  exists y, y2 = y ++ [q] /\ s = y1 ++ y.
+Proof.
+  intros A s q y1 y2 E Hne.
+  destruct (exists_last Hne) as (y & x & ->).
+  rewrite app_assoc in E. apply app_inj_tail in E. destruct E as [E1 E2]. subst x.
+  exists y. auto.
+Qed.
+
+Lemma einert_str : forall dq s rest prev, forallb lit_char s = true ->
+  einert prev (quote_of dq :: s ++ [quote_of dq]) rest.
+Proof.
+  intros dq s rest prev Hs.
+  assert (Hq : is_quote (quote_of dq) = true) by (destruct dq; reflexivity).
+  assert (H40 : forallb (fun c => negb (c =? 40)) (quote_of dq :: s) = true).
+  { cbn [forallb]. replace (negb (quote_of dq =? 40)) with true by (destruct dq; reflexivity).
+    cbn [andb]. rewrite forallb_forall in *. intros c Hc. specialize (Hs c Hc).
+    destruct (c =? 40) eqn:E; auto. apply N.eqb_eq in E. subst. discriminate. }
+  apply einert_suffixes. intros y1 y2 E Hne.
+  change (quote_of dq :: s ++ [quote_of dq]) with ((quote_of dq :: s) ++ [quote_of dq]) in E.
+  destruct (suffix_of_snoc _ _ _ _ E Hne) as (y & -> & E2).
+  apply no_eval_in_quoted; auto.
+  rewrite E2 in H40. rewrite forallb_app_iff in H40. apply andb_true_iff in H40. destruct H40; auto.
+Qed.
+
+(* every escaped token except TEvalE *)
+Lemma einert_tok : forall rs ps t rest prev, wf_tok rs ps t = true -> post_esc t = true ->
+  eval_tok t = false -> (ends_word t = true -> hd_is is_word rest = false) ->
+  einert prev (text t) rest.
+Proof.
+  intros rs ps t rest prev Hwf Hpe Hev Hsep.
+  destruct t; try discriminate Hpe; try discriminate Hev; cbn [text];
+    try (apply einert_other; reflexivity).
+  - destruct c; apply einert_other; reflexivity.
+  - simpl in Hwf. unfold lit_ok in Hwf. apply andb_true_iff in Hwf. destruct Hwf as [Hwf _].
+    apply andb_true_iff in Hwf. destruct Hwf as [Hl _]. apply einert_str; auto.
+  - simpl in Hwf. unfold digits_ok in Hwf. apply andb_true_iff in Hwf. destruct Hwf as [Hwf _].
+    apply andb_true_iff in Hwf. destruct Hwf as [Hne Hd].
+    destruct ds as [|d ds]; [exact I|]. cbn [forallb] in Hd. apply andb_true_iff in Hd.
+    destruct Hd as [Hd Hds]. split.
+    + apply eval_match_other. destruct (d =? 101) eqn:E; auto. apply N.eqb_eq in E. subst. discriminate.
+    + apply einert_after_word; [apply digit_is_word; auto | apply digits_are_words; auto].
+  - apply einert_good; auto.
+  - simpl in Hwf. apply andb_true_iff in Hwf. destruct Hwf as [Hx Hat].
+    apply einert_app.
+    + apply einert_good; auto. destruct attrs; [cbn; apply Hsep; reflexivity | reflexivity].
+    + apply einert_dots; auto.
+Qed.
+
+(* ---- replace_eval / get_eval_value over inert text and over an eval token *)
+Lemma replace_einert : forall rules a rest prev, einert prev a rest ->
+  replace_eval rules prev 0 (a ++ rest)
+  = option_map (app a) (replace_eval rules (lastc a prev) 0 rest).
+Proof.
+  intros rules. induction a as [|c a IH]; intros rest prev H.
+  - cbn [app lastc]. destruct (replace_eval rules prev 0 rest); reflexivity.
+  - destruct H as [H1 H2]. cbn [app replace_eval]. cbn [app] in H1. rewrite H1.
+    rewrite IH by auto. cbn [lastc]. destruct (replace_eval rules (lastc a (Some c)) 0 rest); reflexivity.
+Qed.
+
+Lemma replace_skip : forall rules a rest prev,
+  replace_eval rules prev (length a) (a ++ rest) = replace_eval rules (lastc a prev) 0 rest.
+Proof. intros rules. induction a as [|c a IH]; simpl; intros; auto. Qed.
+
+Lemma names_einert : forall a rest prev, einert prev a rest ->
+  get_eval_value prev 0 (a ++ rest) = get_eval_value (lastc a prev) 0 rest.
+Proof.
+  induction a as [|c a IH]; intros rest prev H; auto.
+  destruct H as [H1 H2]. cbn [app get_eval_value]. cbn [app] in H1. rewrite H1. apply IH; auto.
+Qed.
+
+Lemma names_skip : forall a rest prev,
+  get_eval_value prev (length a) (a ++ rest) = get_eval_value (lastc a prev) 0 rest.
+Proof. induction a as [|c a IH]; simpl; intros; auto. Qed.
+
+Lemma is_prefix_app : forall p s, is_prefix p (p ++ s) = true.
+Proof. induction p; simpl; intros; auto. rewrite N.eqb_refl. simpl. auto. Qed.
+
+Lemma good_no_rparen : forall x, good_name x = true -> forallb (fun c => negb (c =? 41)) x = true.
+Proof.
+  intros x H. destruct (good_name_facts _ H) as (_ & Hw & _).
+  rewrite forallb_forall in *. intros c Hc. specialize (Hw c Hc).
+  destruct (c =? 41) eqn:E; auto. apply N.eqb_eq in E. subst. discriminate.
+Qed.
+
+Lemma eval_match_hit : forall x rest prev, good_name x = true -> is_word_opt prev = false ->
+  eval_match prev (s_eval_lp ++ x ++ 41 :: rest) = Some (x, (5 + length x)%nat).
+Proof.
+  intros x rest prev Hx Hp. unfold eval_match. rewrite Hp, is_prefix_app. cbn [negb andb].
+  change (skipn 5 (s_eval_lp ++ x ++ 41 :: rest)) with (x ++ 41 :: rest).
+  rewrite span_all; [reflexivity | apply good_no_rparen; auto | simpl; reflexivity].
+Qed.
+
+Lemma eval_text_split : forall x rest,
+  text (TEvalE x) ++ rest = 101 :: ([118; 97; 108; 40] ++ x ++ [41]) ++ rest.
+Proof. intros. cbn [text]. unfold s_eval_lp. rewrite <- !app_assoc. reflexivity. Qed.
+
+Lemma replace_hit : forall R Rs x rest prev, good_name x = true -> is_word_opt prev = false ->
+  replace_eval (R :: Rs) prev 0 (text (TEvalE x) ++ rest)
+  = option_map (fun t => 40 :: R ++ 41 :: t) (replace_eval Rs (Some 41) 0 rest).
+Proof.
+  intros R Rs x rest prev Hx Hp.
+  pose proof (eval_match_hit x rest prev Hx Hp) as Hm.
+  rewrite eval_text_split. cbn [replace_eval].
+  replace (101 :: ([118; 97; 108; 40] ++ x ++ [41]) ++ rest) with (s_eval_lp ++ x ++ 41 :: rest)
+    by (unfold s_eval_lp; rewrite <- !app_assoc; reflexivity).
+  rewrite Hm.
+  replace (5 + length x)%nat with (length ([118; 97; 108; 40] ++ x ++ [41]))
+    by (rewrite !app_length; simpl; lia).
+  rewrite replace_skip. norm_lastc. reflexivity.
+Qed.
+
+Lemma names_hit : forall x rest prev, good_name x = true -> is_word_opt prev = false ->
+  get_eval_value prev 0 (text (TEvalE x) ++ rest) = x :: get_eval_value (Some 41) 0 rest.
+Proof.
+  intros x rest prev Hx Hp.
+  pose proof (eval_match_hit x rest prev Hx Hp) as Hm.
+  rewrite eval_text_split. cbn [get_eval_value].
+  replace (101 :: ([118; 97; 108; 40] ++ x ++ [41]) ++ rest) with (s_eval_lp ++ x ++ 41 :: rest)
+    by (unfold s_eval_lp; rewrite <- !app_assoc; reflexivity).
+  rewrite Hm.
+  replace (5 + length x)%nat with (length ([118; 97; 108; 40] ++ x ++ [41]))
+    by (rewrite !app_length; simpl; lia).
+  rewrite names_skip. norm_lastc. reflexivity.
+Qed.
+
+(* ---- the splice on pieces *)
+Fixpoint splice (pcs : list piece) (Rs : list (list piece)) : list piece :=
+  match pcs with
+  | [] => []
+  | (a, TEvalE x, b) :: r =>
+      match Rs with
+      | R :: Rs' => (a, TLP, []) :: R ++ ([], TRP, b) :: splice r Rs'
+      | [] => (a, TEvalE x, b) :: splice r []
+      end
+  | p :: r => p :: splice r Rs
+  end.
+
+Definition eval_names (ts : list tok) : list str :=
+  flat_map (fun t => match t with TEvalE x => [x] | _ => [] end) ts.
+
+Lemma render_app : forall X Y, render_pieces (X ++ Y) = render_pieces X ++ render_pieces Y.
+Proof. intros. unfold render_pieces. apply flat_map_app. Qed.
+
+Lemma blanks_einert : forall a rest prev, forallb is_blank a = true -> einert prev a rest.
+Proof.
+  intros. apply einert_other. rewrite forallb_forall in *. intros c Hc. specialize (H c Hc).
+  apply blank_cases in H. destruct H; subst; reflexivity.
+Qed.
+
+Lemma glue_prev_nonword : forall prev a t b pcs, forallb is_blank a = true ->
+  glue_inv prev ((a, t, b) :: pcs) -> starts_word t = true -> is_word_opt (lastc a prev) = false.
+Proof.
+  intros prev a t b pcs Ha Hg Hs. destruct a as [|c a].
+  - cbn [lastc]. destruct (is_word_opt prev) eqn:E; auto. simpl in Hg. rewrite Hs in Hg.
+    specialize (Hg eq_refl E). discriminate.
+  - apply lastc_blanks_nonword; auto. discriminate.
+Qed.
+
+Lemma hd_word_after : forall rs ps a t b pcs,
+  adm ((a, t, b) :: pcs) = true -> forallb (wf_tok rs ps) (toks pcs) = true ->
+  ends_word t = true -> hd_is is_word (b ++ render_pieces pcs) = false.
+Proof.
+  intros rs ps a t b pcs Hadm Hwf He.
+  destruct (sep_from_adm rs ps a t b pcs Hadm Hwf) as [H _]. apply H; auto.
+Qed.
+
+Theorem replace_render : forall rs ps pcs Rs prev,
+  adm pcs = true -> forallb (wf_tok rs ps) (toks pcs) = true -> forallb post_esc (toks pcs) = true ->
+  glue_inv prev pcs -> length Rs = length (eval_names (toks pcs)) ->
+  replace_eval (map render_pieces Rs) prev 0 (render_pieces pcs)
+  = Some (render_pieces (splice pcs Rs)).
+Proof.
+  intros rs ps. induction pcs as [|[[a t] b] pcs IH]; intros Rs prev Hadm Hwf Hpe Hg Hlen.
+  - reflexivity.
+  - pose proof (hd_word_after rs ps a t b pcs Hadm) as Hsep.
+    cbn [toks map tok_of fst snd forallb] in *. apply andb_true_iff in Hwf. destruct Hwf as [Hwt Hwf].
+    apply andb_true_iff in Hpe. destruct Hpe as [Hpt Hpe].
+    destruct (adm_cons _ _ _ _ Hadm) as (Ha & Hb & Hr & Hgap).
+    rewrite render_cons. rewrite replace_einert by (apply blanks_einert; auto).
+    assert (Hgn : glue_inv (lastc b (lastc (text t) (lastc a prev))) pcs).
+    { eapply glue_next; eauto. }
+    destruct (eval_tok t) eqn:Hev.
+    + destruct t; try discriminate Hev; try discriminate Hpt.
+      cbn [eval_names flat_map app length] in Hlen.
+      destruct Rs as [|R Rs]; [discriminate Hlen|]. cbn [map splice].
+      rewrite replace_hit; auto.
+      2:{ eapply glue_prev_nonword; eauto. }
+      rewrite replace_einert by (apply blanks_einert; auto).
+      rewrite (IH Rs); auto.
+      * cbn [option_map]. rewrite render_cons, render_app, render_cons. cbn [text app].
+        rewrite <- ?app_assoc. reflexivity.
+      * assert (Hl : lastc (text (TEvalE x)) (lastc a prev) = Some 41)
+          by (cbn [text]; norm_lastc; reflexivity).
+        rewrite Hl in Hgn. exact Hgn.
+    + assert (Hsp : splice (@cons piece (a, t, b) pcs) Rs = (a, t, b) :: splice pcs Rs).
+      { destruct t; try discriminate Hev; reflexivity. }
+      assert (Hn : eval_names (t :: toks pcs) = eval_names (toks pcs)).
+      { destruct t; try discriminate Hev; reflexivity. }
+      unfold toks in Hn. rewrite Hn in Hlen. rewrite Hsp.
+      rewrite replace_einert by (apply (einert_tok rs ps); auto).
+      rewrite replace_einert by (apply blanks_einert; auto).
+      rewrite (IH Rs); auto. cbn [option_map]. rewrite render_cons. reflexivity.
+Qed.
+
+Theorem names_render : forall rs ps pcs prev,
+  adm pcs = true -> forallb (wf_tok rs ps) (toks pcs) = true -> forallb post_esc (toks pcs) = true ->
+  glue_inv prev pcs ->
+  get_eval_value prev 0 (render_pieces pcs) = eval_names (toks pcs).
+Proof.
+  intros rs ps. induction pcs as [|[[a t] b] pcs IH]; intros prev Hadm Hwf Hpe Hg.
+  - reflexivity.
+  - pose proof (hd_word_after rs ps a t b pcs Hadm) as Hsep.
+    cbn [toks map tok_of fst snd forallb] in *. apply andb_true_iff in Hwf. destruct Hwf as [Hwt Hwf].
+    apply andb_true_iff in Hpe. destruct Hpe as [Hpt Hpe].
+    destruct (adm_cons _ _ _ _ Hadm) as (Ha & Hb & Hr & Hgap).
+    rewrite render_cons. rewrite names_einert by (apply blanks_einert; auto).
+    assert (Hgn : glue_inv (lastc b (lastc (text t) (lastc a prev))) pcs).
+    { eapply glue_next; eauto. }
+    destruct (eval_tok t) eqn:Hev.
+    + destruct t; try discriminate Hev; try discriminate Hpt.
+      rewrite names_hit; auto.
+      2:{ eapply glue_prev_nonword; eauto. }
+      rewrite names_einert by (apply blanks_einert; auto).
+      cbn [eval_names flat_map app]. f_equal. apply IH; auto.
+      assert (Hl : lastc (text (TEvalE x)) (lastc a prev) = Some 41)
+        by (cbn [text]; norm_lastc; reflexivity).
+      rewrite Hl in Hgn. exact Hgn.
+    + assert (Hn : eval_names (t :: map tok_of pcs) = eval_names (map tok_of pcs)).
+      { destruct t; try discriminate Hev; reflexivity. }
+      rewrite Hn.
+      rewrite names_einert by (apply (einert_tok rs ps); auto).
+      rewrite names_einert by (apply blanks_einert; auto).
+      apply IH; auto.
+Qed.
+
+(* ---- admissibility / well-formedness of the spliced piece list *)
+Lemma gap_to_rp : forall t g, gap_ok t g TRP = true.
+Proof. intros. unfold gap_ok. cbn. rewrite !andb_false_r. cbn. rewrite orb_true_r. reflexivity. Qed.
+Lemma gap_to_lp : forall t g, gap_ok t g TLP = true.
+Proof. intros. unfold gap_ok. cbn. rewrite !andb_false_r. cbn. rewrite orb_true_r. reflexivity. Qed.
+Lemma gap_from_lp : forall g t', gap_ok TLP g t' = true.
+Proof. intros. unfold gap_ok. cbn. rewrite orb_true_r. reflexivity. Qed.
+Lemma gap_evale_rp : forall x g t', gap_ok (TEvalE x) g t' = gap_ok TRP g t'.
+Proof. reflexivity. Qed.
+
+Lemma adm_snoc_rp : forall R b rest, adm R = true -> adm (([], TRP, b) :: rest) = true ->
+  adm (R ++ ([], TRP, b) :: rest) = true.
+Proof.
+  induction R as [|[[a t] b0] R IH]; intros b rest HR HY; auto.
+  destruct (adm_cons _ _ _ _ HR) as (Ha & Hb & Hr & Hg).
+  cbn [app]. apply adm_intro; auto.
+  destruct R as [|[[a' t'] b'] R']; cbn [app].
+  - apply gap_to_rp.
+  - exact Hg.
+Qed.
+
+Lemma splice_head : forall a' t' b' r Rs, exists t2 b2 rest,
+  splice (@cons piece (a', t', b') r) Rs = (a', t2, b2) :: rest /\ (t2 = t' \/ t2 = TLP).
+Proof.
+  intros. destruct t'; try (eexists _, _, _; split; [reflexivity | auto]).
+  destruct Rs; eexists _, _, _; (split; [reflexivity | auto]).
+Qed.
+
+Lemma adm_splice : forall pcs Rs, adm pcs = true -> Forall (fun R => adm R = true) Rs ->
+  adm (splice pcs Rs) = true.
+Proof.
+  induction pcs as [|[[a t] b] pcs IH]; intros Rs Hadm HRs; auto.
+  destruct (adm_cons _ _ _ _ Hadm) as (Ha & Hb & Hr & Hgap).
+  assert (Hnext : forall Rs', Forall (fun R => adm R = true) Rs' -> forall tk,
+            (match pcs with (a', t', _) :: _ => gap_ok tk (b ++ a') t' = true | [] => True end) ->
+            adm ((a, tk, b) :: splice pcs Rs') = true).
+  { intros Rs' HRs' tk Hg. apply adm_intro; auto.
+    destruct pcs as [|[[a' t'] b'] r]; [exact I|].
+    destruct (splice_head a' t' b' r Rs') as (t2 & b2 & rest & E & [-> | ->]); rewrite E; auto.
+    apply gap_to_lp. }
+  destruct t; try (apply (Hnext Rs HRs); exact Hgap).
+  destruct Rs as [|R Rs'].
+  - apply (Hnext [] HRs). exact Hgap.
+  - cbn [splice]. inversion HRs; subst.
+    apply adm_intro; auto.
+    + apply adm_snoc_rp; auto.
+      assert (X : adm (([] : str, TRP, b) :: splice pcs Rs') = true).
+      { specialize (Hnext Rs' H2 TRP). 
+        assert (G : match pcs with (a', t', _) :: _ => gap_ok TRP (b ++ a') t' = true | [] => True end).
+        { destruct pcs as [|[[a' t'] b'] r]; auto. }
+        specialize (Hnext G).
+        destruct (adm_cons _ _ _ _ Hnext) as (_ & Hb' & Hr' & Hg').
+        apply adm_intro; auto. }
+      exact X.
+    + destruct R as [|[[a1 t1] b1] R']; cbn [app]; apply gap_from_lp.
+Qed.
+
+Fixpoint splice_toks (ts : list tok) (Rs : list (list tok)) : list tok :=
+  match ts with
+  | [] => []
+  | t :: r =>
+      if eval_tok t then
+        match Rs with
+        | R :: Rs' => TLP :: R ++ TRP :: splice_toks r Rs'
+        | [] => t :: splice_toks r []
+        end
+      else t :: splice_toks r Rs
+  end.
+
+Lemma toks_app : forall X Y, toks (X ++ Y) = toks X ++ toks Y.
+Proof. intros. unfold toks. apply map_app. Qed.
+
+Lemma toks_splice : forall pcs Rs, forallb post_esc (toks pcs) = true ->
+  toks (splice pcs Rs) = splice_toks (toks pcs) (map toks Rs).
+Proof.
+  induction pcs as [|[[a t] b] pcs IH]; intros Rs H; auto.
+  cbn [toks map tok_of fst snd forallb] in H. apply andb_true_iff in H. destruct H as [Ht H].
+  destruct t; try discriminate Ht;
+    try (cbn [splice]; unfold toks in *; cbn [map tok_of fst snd splice_toks eval_tok];
+         rewrite IH by auto; reflexivity).
+  destruct Rs as [|R Rs']; cbn [splice map].
+  - unfold toks in *. cbn [map tok_of fst snd splice_toks eval_tok]. rewrite IH by auto. reflexivity.
+  - change (toks ((a, TLP, []) :: R ++ ([], TRP, b) :: splice pcs Rs'))
+      with (TLP :: toks (R ++ ([], TRP, b) :: splice pcs Rs')).
+    rewrite toks_app. change (toks (([], TRP, b) :: splice pcs Rs')) with (TRP :: toks (splice pcs Rs')).
+    rewrite IH by auto. reflexivity.
+Qed.
+
+Lemma map_splice_toks : forall f, (forall t, eval_tok (f t) = eval_tok t) -> f TLP = TLP -> f TRP = TRP ->
+  forall ts Rs, map f (splice_toks ts Rs) = splice_toks (map f ts) (map (map f) Rs).
+Proof.
+  intros f He Hl Hr. induction ts as [|t ts IH]; intros Rs; auto.
+  cbn [splice_toks map]. rewrite He. destruct (eval_tok t).
+  - destruct Rs as [|R Rs']; cbn [map].
+    + rewrite IH. reflexivity.
+    + rewrite Hl, map_app. cbn [map]. rewrite Hr, IH. reflexivity.
+  - cbn [map]. rewrite IH. reflexivity.
+Qed.
+
+Lemma splice_toks_forall : forall (p : tok -> bool), p TLP = true -> p TRP = true ->
+  forall ts Rs, forallb p ts = true -> Forall (fun R => forallb p R = true) Rs ->
+  forallb p (splice_toks ts Rs) = true.
+Proof.
+  intros p Hl Hr. induction ts as [|t ts IH]; intros Rs Hts HRs; auto.
+  cbn [forallb] in Hts. apply andb_true_iff in Hts. destruct Hts as [Ht Hts].
+  cbn [splice_toks]. destruct (eval_tok t).
+  - destruct Rs as [|R Rs'].
+    + cbn [forallb]. rewrite Ht, IH; auto.
+    + inversion HRs; subst. cbn [forallb]. rewrite Hl, forallb_app_iff, H1. cbn [forallb].
+      rewrite Hr, IH; auto.
+  - cbn [forallb]. rewrite Ht, IH; auto.
+Qed.
+
+Lemma splice_toks_no_eval : forall ts Rs,
+  length Rs = length (filter eval_tok ts) -> Forall (fun R => existsb eval_tok R = false) Rs ->
+  existsb eval_tok (splice_toks ts Rs) = false.
+Proof.
+  induction ts as [|t ts IH]; intros Rs Hlen HRs; auto.
+  cbn [splice_toks filter] in *. destruct (eval_tok t) eqn:E.
+  - destruct Rs as [|R Rs']; [discriminate Hlen|].
+    inversion HRs; subst. cbn [existsb eval_tok orb]. rewrite existsb_app, H1.
+    cbn [existsb eval_tok orb]. apply IH; auto.
+  - cbn [existsb]. rewrite E. apply IH; auto.
+Qed.
+
+Lemma eval_names_length : forall ts, forallb post_esc ts = true ->
+  length (eval_names ts) = length (filter eval_tok ts).
+Proof.
+  induction ts as [|t ts IH]; intros H; auto.
+  cbn [forallb] in H. apply andb_true_iff in H. destruct H as [Ht H].
+  destruct t; try discriminate Ht; cbn [eval_names flat_map filter eval_tok app]; cbn [length];
+    fold (eval_names ts); rewrite ?IH; auto.
+Qed.
+
+Lemma esc_tok_post : forall t, casbin_tok t = true -> post_esc (esc_tok t) = true.
+Proof. intros t H. destruct t; try discriminate; reflexivity. Qed.
+
+Lemma esc_tok_eval : forall t, eval_tok (esc_tok t) = eval_tok t.
+Proof. intro t. destruct t; reflexivity. Qed.
+
+Lemma filter_eval_esc : forall ts, length (filter eval_tok (map esc_tok ts)) = length (filter eval_tok ts).
+Proof.
+  induction ts as [|t ts IH]; auto. cbn [map filter]. rewrite esc_tok_eval.
+  destruct (eval_tok t); cbn [length]; rewrite IH; reflexivity.
+Qed.
+
+(* names handed to the rule lookup: the escaped arguments of the eval() calls, in order *)
+Definition eval_args (ts : list tok) : list str :=
+  flat_map (fun t => match t with TEval sfx f => [esc_name 112 sfx f] | _ => [] end) ts.
+
+Lemma eval_names_esc : forall ts, forallb casbin_tok ts = true ->
+  eval_names (map esc_tok ts) = eval_args ts.
+Proof.
+  induction ts as [|t ts IH]; intros H; auto.
+  cbn [forallb] in H. apply andb_true_iff in H. destruct H as [Ht H].
+  destruct t; try discriminate Ht; cbn [map esc_tok esc_p esc_r eval_names eval_args flat_map app];
+    fold (eval_names (map esc_tok ts)); fold (eval_args ts); rewrite IH; auto.
+Qed.
+
+(* eval(): load-time value, the names looked up in the rule, the splice, the resulting Python tokens *)
+Theorem eval_splice_pieces : forall rs ps pcs Rs,
+  forallb is_digit rs = true -> forallb is_digit ps = true -> pcs <> [] ->
+  adm pcs = true -> forallb (wf_tok rs ps) (toks pcs) = true -> forallb casbin_tok (toks pcs) = true ->
+  Forall (fun R => adm R = true /\ forallb (wf_tok rs ps) (toks R) = true
+                   /\ forallb casbin_tok (toks R) = true /\ existsb eval_tok (toks R) = false) Rs ->
+  length Rs = length (filter eval_tok (toks pcs)) ->
+  let stored := stored_value (render_pieces pcs) in
+  get_eval_value None 0 stored = eval_args (toks pcs)
+  /\ exists spliced,
+       replace_eval (map (fun R => escape_assertion (render_pieces R)) Rs) None 0 stored = Some spliced
+       /\ py_tokens (get_expression spliced)
+          = Some (flat_map tr (splice_toks (toks pcs) (map toks Rs))).
+Proof.
+  intros rs ps pcs Rs Hrs Hps Hne Hadm Hwf Hcb HRs Hlen stored.
+  assert (Ha2 : adm (esc_pieces pcs) = true).
+  { unfold esc_pieces. rewrite adm_pm; auto. apply esc_tok_classes. }
+  pose proof (wf_esc_pieces rs ps pcs Hrs Hps Hwf) as Hw2.
+  assert (Hpe : forallb post_esc (toks (esc_pieces pcs)) = true).
+  { rewrite toks_esc, forallb_map. rewrite forallb_forall in *. intros t Ht. apply esc_tok_post; auto. }
+  assert (Hst : stored = render_pieces (esc_pieces pcs)).
+  { unfold stored, stored_value. rewrite (escape_render rs ps) by auto.
+    unfold remove_comments. rewrite find_char_none by (apply (render_no_hash rs ps); auto). reflexivity. }
+  rewrite Hst. split.
+  { rewrite (names_render rs ps); auto using glue_inv_none.
+    rewrite toks_esc. apply eval_names_esc; auto. }
+  exists (render_pieces (splice (esc_pieces pcs) (map esc_pieces Rs))).
+  assert (Hrules : map (fun R => escape_assertion (render_pieces R)) Rs
+                   = map render_pieces (map esc_pieces Rs)).
+  { rewrite map_map. apply map_ext_in. intros R HR. rewrite Forall_forall in HRs.
+    destruct (HRs R HR) as (A & B & _). apply (escape_render rs ps); auto. }
+  rewrite Hrules. split.
+  { apply (replace_render rs ps); auto using glue_inv_none.
+    rewrite map_length, (eval_names_length _ Hpe), toks_esc, filter_eval_esc. exact Hlen. }
+  assert (Htoks : toks (splice (esc_pieces pcs) (map esc_pieces Rs))
+                  = map esc_tok (splice_toks (toks pcs) (map toks Rs))).
+  { rewrite toks_splice by auto. rewrite toks_esc.
+    rewrite (map_splice_toks esc_tok esc_tok_eval eq_refl eq_refl).
+    f_equal. rewrite !map_map. apply map_ext. intro R. apply toks_esc. }
+  assert (Hcb2 : forallb casbin_tok (splice_toks (toks pcs) (map toks Rs)) = true).
+  { apply splice_toks_forall; auto. rewrite Forall_forall in *. intros R HR.
+    apply in_map_iff in HR. destruct HR as (R0 & <- & HR0). apply (HRs R0 HR0). }
+  assert (Hne2 : existsb eval_tok (splice_toks (toks pcs) (map toks Rs)) = false).
+  { apply splice_toks_no_eval; [rewrite map_length; auto|]. rewrite Forall_forall in *. intros R HR.
+    apply in_map_iff in HR. destruct HR as (R0 & <- & HR0). apply (HRs R0 HR0). }
+  rewrite (expression_tokens rs ps); auto.
+  - rewrite Htoks. rewrite flat_map_tr_final; auto.
+  - destruct pcs as [|[[a t] b] r]; [congruence|]. unfold esc_pieces. cbn [map pm].
+    destruct (esc_tok t); cbn [splice]; try discriminate.
+    destruct (map (fun pcs : list piece => map (pm esc_tok) pcs) Rs); discriminate.
+  - apply adm_splice; auto. rewrite Forall_forall in *. intros R HR.
+    apply in_map_iff in HR. destruct HR as (R0 & <- & HR0). destruct (HRs R0 HR0) as (A & _).
+    unfold esc_pieces. rewrite adm_pm; auto. apply esc_tok_classes.
+  - rewrite Htoks. rewrite forallb_map.
+    apply splice_toks_forall; try reflexivity.
+    + rewrite <- forallb_map, <- toks_esc. exact Hw2.
+    + rewrite Forall_forall. intros R HR. apply in_map_iff in HR. destruct HR as (R0 & <- & HR0).
+      rewrite Forall_forall in HRs. destruct (HRs R0 HR0) as (A & B & _).
+      rewrite <- forallb_map, <- toks_esc. apply wf_esc_pieces; auto.
+  - rewrite Htoks, !forallb_map. rewrite forallb_forall in *. intros t Ht.
+    apply final_py; auto.
+    destruct (eval_tok t) eqn:E; auto.
+    assert (X : existsb eval_tok (splice_toks (toks pcs) (map toks Rs)) = true)
+      by (apply existsb_exists; eauto). congruence.
+Qed.
